@@ -1,9 +1,5 @@
-from . import misc_rules as ms
+from . import shape_rules as sh
 META = {}
 def run(rep):
-    ms.rule_generator(rep)
-    ms.rule_shared(rep)
-    ms.rule_inst(rep)
-    ms.rule_parse_resets(rep)
-    ms.rule_det(rep)
-    ms.rule_formatter(rep)
+    sh.rule_shape(rep)
+    sh.rule_vocab(rep)
